@@ -81,6 +81,43 @@ theorem C12_consistent_partial (mode : Mode) (hm : mode ≠ .massFraction) (cs :
       · intro q _ hq; cases hq; rfl
       · cases vol <;> simp [finalN]
 
+/-- The same for **any** earlier history: however many times `_norm` ran before (constructor,
+    `add()` of new or of already present components, …) with whatever composite masses, after the
+    `_norm` that sees the final components the state is the closed form of the final composite. -/
+theorem C12_any_history_partial (mode : Mode) (hm : mode ≠ .massFraction) (cs : List (Comp α))
+    (da : α) (rho n vol : Option (Q α)) (Ms : List α)
+    (hne : cs ≠ []) (hp : Pos cs) (hda : 0 < da) (hg : rho.isSome ∨ n.isSome) :
+    ∃ s r v, runHistory da (Ms.map some ++ [compositeMassQ mode cs]) (MState.init rho n vol) = some s ∧
+      s.rho = some r ∧ s.n = some v ∧ r = v * (compositeMass mode cs * da) ∧
+      (∀ q, rho = some q → r = q.std) ∧ (∀ q, rho = none → n = some q → v = q.std) ∧
+      s.mass = vol.map (fun V => r * V.std) := by
+  have hM := (compositeMass_pos mode cs hne hp).ne'
+  have hd := hda.ne'
+  have hq : compositeMassQ mode cs = some (compositeMass mode cs) := by
+    cases mode
+    · rfl
+    · rfl
+    · exact absurd rfl hm
+  rw [hq]
+  cases rho with
+  | some qr =>
+    refine ⟨_, qr.std, qr.std / compositeMass mode cs / da,
+      runHistory_R da qr.std (vol.map Q.std) Ms _ _ (reachR_init qr n vol), rfl, rfl, ?_, ?_, ?_, ?_⟩
+    · field_simp
+    · intro q hq; cases hq; rfl
+    · intro q hq; cases hq
+    · cases vol <;> simp [finalR]
+  | none =>
+    cases n with
+    | none => simp at hg
+    | some qn =>
+      refine ⟨_, qn.std * compositeMass mode cs * da, qn.std,
+        runHistory_N da qn.std (vol.map Q.std) Ms _ _ (reachN_init qn vol), rfl, rfl, ?_, ?_, ?_, ?_⟩
+      · ring
+      · intro q hq; cases hq
+      · intro q _ hq; cases hq; rfl
+      · cases vol <;> simp [finalN]
+
 /-- Component rows of `data_matter` (number modes): the component number densities are the
     component amounts times `n`, the particle numbers `n_i · V`, and the `sum` row of the mass
     densities is `n · M` (= `rho` by `C12_consistent_partial`), that of the masses `n · M · V`
